@@ -3,5 +3,6 @@ EXTENDS MarkerNormalForm
 \* p: a mergeable variable (version-like / ==,!= atoms); r: atoms the atom layer cannot merge (`in` lists)
 SelQuick == { Atom("p", {1}, TRUE), Atom("p", {2, 3}, TRUE), Atom("p", {1, 2}, TRUE),
               Atom("r", {1}, FALSE), Atom("r", {1, 2}, FALSE) }
+SelProj  == { Atom("p", {1}, TRUE), Atom("p", {2, 3}, TRUE), Atom("r", {1}, FALSE), Atom("r", {1, 2}, FALSE) }
 SelTiny  == { Atom("p", {1}, TRUE), Atom("p", {2, 3}, TRUE), Atom("r", {1}, FALSE) }
 =============================================================================
